@@ -583,7 +583,7 @@ func stressRound(r *vf.Run, idx int, rng *prng.R) {
 	}
 	desc := fmt.Sprintf("stress %s cap=%d keys=%d writers=%d readers=%d", kind, capacity, nkeys, writers, readers)
 	replay := map[string]any{"stress_round": idx, "config": desc}
-	var heldFinalised, getHits, deferredSeen atomic.Int64
+	var heldFinalised, getHits, deferredSeen, doubleReleases atomic.Int64
 	check := func(v int) {
 		if vals[v].evCount.Load() != 0 {
 			heldFinalised.Add(1)
@@ -665,7 +665,27 @@ func stressRound(r *vf.Run, idx int, rng *prng.R) {
 					runtime.Gosched()
 				}
 				check(v)
-				if ttl {
+				if rg.Chance(1, 6) {
+					// "releasing twice is harmless" also when the two releases of one hold
+					// overlap: call the same release function from two goroutines at once.
+					var w2 sync.WaitGroup
+					w2.Add(1)
+					go func() {
+						defer w2.Done()
+						if ttl {
+							dT(false)
+						} else {
+							dL()
+						}
+					}()
+					if ttl {
+						dT(false)
+					} else {
+						dL()
+					}
+					w2.Wait()
+					doubleReleases.Add(1)
+				} else if ttl {
 					dT(false)
 				} else {
 					dL()
@@ -712,6 +732,7 @@ func stressRound(r *vf.Run, idx int, rng *prng.R) {
 	}
 	r.Count("stress_rounds_"+kind, 1)
 	r.Count("stress_get_hits", int(getHits.Load()))
+	r.Count("stress_concurrent_double_releases", int(doubleReleases.Load()))
 	r.Count("stress_finalised_by_readers_release", int(deferredSeen.Load()))
 	if getHits.Load() > 0 && deferredSeen.Load() > 0 {
 		r.NonTrivial(desc + fmt.Sprint(idx))
